@@ -24,7 +24,7 @@ from ..propkit import OracleOnly, with_oracle
 L = pipes.L
 
 PROPERTY = "C04"
-LEAN_MODULES = ["DAVerif.Props.C04", "DAVerif.Props.C04merge"]
+LEAN_MODULES = ["DAVerif.Props.C04", "DAVerif.Props.C04merge", "DAVerif.Props.C01all", "DAVerif.Props.C04key"]
 THEOREMS = ["DAVerif." + t for t in (
     "C04_names_unique", "C04_wf", "C04_with_form_sound", "C04_with_form_scoped_sound",
     "C04_with_form_scoped_necessary", "C04_cte_elim_sound_key", "C04_with_form_sound_key", "C04_cte_elim_sound",
@@ -32,14 +32,23 @@ THEOREMS = ["DAVerif." + t for t in (
     # the stub before fix N28: semantic faithfulness was not enough, faithful + closed was
     "C04_cte_elim_closed_necessary", "C04_cte_elim_old_sound_key",
     # extend merge on/off (Props/C04merge.lean, proved by the SQL-A proofs)
-    "Sql.C04_merge_option_sound", "Sql.C04_merge_invariant")]
+    "Sql.C04_merge_option_sound", "Sql.C04_merge_invariant",
+    # with joins / concat_rows in the pipeline (Props/C01all.lean)
+    "C04_merge_option_sound_all", "C04_merge_invariant_all",
+    # the cache key is faithful on translated pipelines, so the option theorems hold without a key hypothesis (Props/C04key.lean)
+    "C04_bound_subquery_sound", "C04_key_text_determines_node", "C04_render_injective", "C04_key_faithful",
+    "C04_cte_elim_sound_translated", "C04_to_sql_options_sound_translated", "C04_to_sql_options_engine_order",
+    "C04_to_sql_options_sound_reachable", "C04_key_faithful_nonempty_necessary", "C04_render_collision",
+    "C04_quote_assumption_consistent", "C04_options_sound_shared_instance")]
 ASSUMPTIONS = [
     "the NearSQL translation `toNearSql`, the WITH form `toWithForm` and the bag semantics `semNear` of the SQL text "
     "(lean/DAVerif/Sql/*.lean) are the real code and the engine: tied by suites k5_with and k5_semopt on every run",
-    "KeyFaithful: sub-queries with the same CTE-cache key (ops_key + bound columns) denote the same table - hypothesis "
-    "of the CTE-elimination theorems, not proved of toNearSql (reduced to a syntactic condition by "
-    "C04_key_faithful_of_shape); "
-    "tested by k5_semopt and by the oracle on pipelines biased to shared sub-DAGs",
+    "KeyFaithful (sub-queries with the same CTE-cache key = ops_key + bound columns denote the same table) is PROVED of translated "
+    "pipelines (C04_key_faithful) under: the C01 scope `Good cfg env p` (no emulated RIGHT/FULL join: SQLite, which emulates them, "
+    "has CTE elimination switched off), every bound column list non-empty (BoundColsNonempty, proved necessary), the model-renderer "
+    "guard RenderOK (no '=' inside a renamed column name: a collision of the MODEL's renderOps only, the real str(node) differs "
+    "there) and the assumption QuoteOK about Lean's opaque String.quote (injective with a recognisable head; a hypothesis of the "
+    "theorems, not an axiom; C04_quote_assumption_consistent shows it is satisfiable; the compiled String.quote was spot-checked)",
     "SQL scoping of CTE names over table names is modelled by semWithC (Sql/WithFormG.lean), not by the shared semNear",
     "the real cache key contains Python set-iteration orders: the theorems hold for every key function that is "
     "semantically faithful on the query, whatever it renders",
@@ -55,8 +64,8 @@ NOT_PROVEN = [
     "cleanAnnotation_no_line_break / C14_comment_inert show an annotation comment cannot change the token stream)",
     "extend merge on/off: Sql.C04_merge_option_sound (Props/C04merge.lean) covers the fragment of its hypotheses; the "
     "rest is oracle only",
-    "C04_key_faithful: toNearSql cfg p = .ok q -> KeyFaithful q (hypothesis; the syntactic version `ShapeDet` is false "
-    "of toNearSql: corpus/C04/n28_dangling_cte.json)",
+    "C04_key_faithful is proved under the guards named in the assumptions; pipelines with an EMPTY bound column list somewhere "
+    "(consumers that only count rows) and dialects with emulated RIGHT/FULL joins are outside it (k5_semopt + oracle only)",
 ]
 LEVEL_TEXT = ("Kernel-checked for every interpretation, engine configuration, environment and NearSQL tree: the query "
               "names toNearSql generates are pairwise different; the WITH form without cache evaluates to the nested "
